@@ -194,5 +194,79 @@ COVER(g_nq == 2 && g_cb_mode == 1 && OLD(g_tq->tq_run) && g_t0->task_busy == 0 &
 COVER(g_nq == 0 && !OLD(g_tq->tq_run))
 COVER(g_nq == 1 && g_cb_mode == 0 && g_t0->task_busy == 0)
 ;
+
+/* ---- nni_aio_expire_loop (src/core/aio.c; expire units, -DTQ_WITH_AIO; grade B) --------------------
+ * g_na aios g_a0 [, g_a1] are on the expire list in that order, each with an operation in flight.
+ * The per-iteration decision is checked where it is taken: vp_cancel (env_aio.h) asserts that a cancel
+ * function is called only for an aio whose deadline has passed (or when the queue is stopping), with
+ * the right code, with the lock released, the slot already cleared and the hold (a_expiring) in place;
+ * vp_eq_sleep asserts that the thread never sleeps past the deadline of a listed aio. */
+#ifdef TQ_WITH_AIO
+#define EQ_HEAD(q) ((q)->eq_list.ll_head)
+#define EQ_EMPTY(q) (EQ_HEAD(q).ln_next == &EQ_HEAD(q) && EQ_HEAD(q).ln_prev == &EQ_HEAD(q))
+#define EQ_IS1(q, a) (EQ_HEAD(q).ln_next == &(a)->a_expire_node && (a)->a_expire_node.ln_next == &EQ_HEAD(q) && \
+	    EQ_HEAD(q).ln_prev == &(a)->a_expire_node && (a)->a_expire_node.ln_prev == &EQ_HEAD(q))
+#define EQ_IS2(q, a, b) (EQ_HEAD(q).ln_next == &(a)->a_expire_node && (a)->a_expire_node.ln_next == &(b)->a_expire_node && \
+	    (b)->a_expire_node.ln_next == &EQ_HEAD(q) && EQ_HEAD(q).ln_prev == &(b)->a_expire_node && \
+	    (b)->a_expire_node.ln_prev == &(a)->a_expire_node && (a)->a_expire_node.ln_prev == &EQ_HEAD(q))
+#define AIO_OFF_EQ(a) ((a)->a_expire_node.ln_next == NULL && (a)->a_expire_node.ln_prev == NULL)
+/* state of a listed aio: operation in flight (slot occupied, task prepared and counted, not queued),
+ * deadline not before the queue's next wake-up */
+#define AIO_LISTED_OK(a, i)                                                                          \
+	((a)->a_init && (a)->a_expire_q == g_eq && !(a)->a_expiring && (a)->a_skipped_callback == NULL &&  \
+	    (a)->a_cancel_fn == ((a)->a_sleep ? nni_sleep_cancel : vp_cancel) && g_eq->eq_next <= (a)->a_expire && \
+	    g_ok0[i] == (a)->a_expire_ok && g_sleep0[i] == (a)->a_sleep && (a)->a_task.task_prep &&        \
+	    (a)->a_task.task_busy >= 1 && (a)->a_task.task_busy <= 1000 && TASK_OFFQ(&(a)->a_task) &&     \
+	    (a)->a_task.task_cb == vp_cb && (a)->a_task.task_arg == &(a)->a_task && (a)->a_task.task_tq == g_tq)
+/* what the loop did to listed aio number i (a) when the thread has returned */
+#define AIO_FIRED(i) (g_fire_n[i] == 1 && g_left[i] == 0)
+#define AIO_LEFT(i) (g_fire_n[i] == 0 && g_left[i] == 1)
+#define EXP_CODE(i) (g_eq->eq_stop ? NNG_ESTOPPED : (g_ok0[i] ? NNG_OK : NNG_ETIMEDOUT))
+#define AIO_OUTCOME(a, i)                                                                            \
+	(g_sleep0[i]                                                                                     \
+	        ? (g_fire_n[i] == 0 &&                                                                   \
+	              ((g_left[i] == 1 && (a)->a_sleep && (a)->a_cancel_fn == nni_sleep_cancel) ||       \
+	                  (g_left[i] == 0 && !(a)->a_sleep && (a)->a_cancel_fn == NULL &&                \
+	                      (a)->a_result == EXP_CODE(i) && !(a)->a_task.task_prep &&                  \
+	                      (a)->a_task.task_node.ln_next != NULL)))                                   \
+	        : ((AIO_LEFT(i) && (a)->a_cancel_fn == vp_cancel) ||                                     \
+	              (AIO_FIRED(i) && (a)->a_cancel_fn == NULL && g_fire_rv[i] == (int) EXP_CODE(i) &&  \
+	                  (g_cancel_finishes                                                             \
+	                          ? ((a)->a_result == EXP_CODE(i) && (a)->a_expire == NNI_TIME_NEVER &&  \
+	                                !(a)->a_task.task_prep && (a)->a_task.task_node.ln_next != NULL) \
+	                          : (a)->a_task.task_prep))))
+static void nni_aio_expire_loop(void *arg)
+__CPROVER_requires(arg == (void *) g_eq && VP_LOCKS_CLEAR && g_expire_unit && g_cb_arg_is_task && g_na <= 2 && !g_race_done)
+__CPROVER_requires(g_na == 0 ? EQ_EMPTY(g_eq) : (g_na == 1 ? EQ_IS1(g_eq, g_a0) : EQ_IS2(g_eq, g_a0, g_a1)))
+__CPROVER_requires((g_na >= 1 ==> AIO_LISTED_OK(g_a0, 0)) && (g_na >= 2 ==> AIO_LISTED_OK(g_a1, 1)))
+__CPROVER_requires((g_na < 1 ==> AIO_OFF_EQ(g_a0)) && (g_na < 2 ==> AIO_OFF_EQ(g_a1)))
+__CPROVER_requires(g_fire_n[0] == 0 && g_fire_n[1] == 0 && g_left[0] == 0 && g_left[1] == 0 && TQ_EMPTY(g_tq))
+__CPROVER_requires(g_race ==> (g_na == 2 && g_race_timeout > 0))
+__CPROVER_assigns(__CPROVER_object_whole(g_eq), __CPROVER_object_whole(g_a0), __CPROVER_object_whole(g_a1), TQ_HEAD(g_tq))
+__CPROVER_assigns(g_now, g_fire_n, g_fire_rv, g_fire_arg, g_left, g_race_done, g_eq_sleeps, g_wk_eq, g_wk_sched, g_wk_task0, g_wk_task1, TASK_CB_GHOSTS, g_cb_seq, g_thread_entered, VP_SYNC_GHOSTS)
+/* returns with the lock released, nothing listed, every hold dropped */
+__CPROVER_ensures(VP_NO_LOCK_HELD && EQ_EMPTY(g_eq) && !g_a0->a_expiring && !g_a1->a_expiring && g_eq->eq_exit)
+/* each listed operation was either expired exactly once -- cancel slot taken (cleared), the provider's cancel
+ * function called exactly once with NNG_ESTOPPED / NNG_ETIMEDOUT / 0 (a_expire_ok); a sleep completed in place
+ * with that code and its task dispatched -- or left alone, still listed, when the thread went to sleep */
+__CPROVER_ensures((g_na >= 1 && !g_race) ==> AIO_OUTCOME(g_a0, 0))
+__CPROVER_ensures((g_na >= 2 && !g_race) ==> AIO_OUTCOME(g_a1, 1))
+/* an aio that was not listed is never touched */
+__CPROVER_ensures(g_na < 1 ==> (g_fire_n[0] == 0 && g_left[0] == 0))
+__CPROVER_ensures(g_na < 2 ==> (g_fire_n[1] == 0 && g_left[1] == 0))
+/* with another thread completing and restarting g_a1 in the window: still at most one expiry per operation */
+__CPROVER_ensures(g_race ==> (g_fire_n[0] + g_left[0] == 1 && g_fire_n[1] + g_left[1] <= 1))
+COVER(g_na == 2 && !g_race && AIO_FIRED(0) && AIO_FIRED(1) && !g_sleep0[0] && !g_sleep0[1] && g_cancel_finishes && !g_eq->eq_stop && g_fire_rv[0] == NNG_ETIMEDOUT && g_fire_rv[1] == 0)
+COVER(g_na == 2 && !g_race && AIO_FIRED(0) && AIO_LEFT(1) && !g_sleep0[0] && !g_sleep0[1])
+COVER(g_na == 2 && !g_race && AIO_LEFT(0) && AIO_FIRED(1) && !g_sleep0[0] && !g_sleep0[1])
+COVER(g_na == 2 && !g_race && g_sleep0[0] && g_left[0] == 0 && g_sleep0[1] && g_left[1] == 1)
+COVER(g_na == 2 && !g_race && g_eq->eq_stop && AIO_FIRED(0) && g_sleep0[1])
+COVER(g_na == 1 && AIO_FIRED(0) && g_fire_rv[0] == 0)
+COVER(g_na == 1 && AIO_LEFT(0))
+COVER(g_na == 0)
+COVER(g_race && g_race_done && g_fire_n[0] == 1 && g_fire_n[1] == 0 && g_left[1] == 1)
+COVER(g_race && g_race_done && g_fire_n[0] == 1 && g_fire_n[1] == 1)
+;
+#endif
 /* clang-format on */
 #endif
